@@ -214,8 +214,11 @@ int fiber_io_unlock_thread() {
 
 static inline int should_block(int fd) {
   assert(fd >= 0);
+  // wait only if the descriptor is one we manage (waitable) *and* the caller
+  // has not switched it to non-blocking mode
   if (!thread_locked && fd_info && fd < max_fd &&
-      fd_info[fd].flags_ & (IO_FLAG_BLOCKING | IO_FLAG_WAITABLE)) {
+      (fd_info[fd].flags_ & (IO_FLAG_BLOCKING | IO_FLAG_WAITABLE)) ==
+          (IO_FLAG_BLOCKING | IO_FLAG_WAITABLE)) {
     return 1;
   }
   return 0;
